@@ -44,7 +44,8 @@ EXPLANATION = (
 )
 # obligations added during the build phase (seeding rounds, twins, mutation analysis)
 ADDED_IN_BUILD = ' Also: the backtracker is decided for three spellings (while loop that jumps to start-1; guarded append plus reversal; descending for loop with a watermark that starts at >= n, skips positions at or above it and is lowered to the start of a collective anomaly only), with exactness (a point anomaly only when starts[i] == i) and completeness (the silent branch is unsatisfiable for 0 <= starts[i] <= i); every backtracked anomaly of MVCAPA gets its (start, end, components) record (C16.a re-run); C10.c NO-STALE-READ of CAPA / MVCAPA re-run. Summarised driver calls bind the defaults of parameters the call leaves out (a limit silently left to a default is a BINDING violation).'
-EXPLANATION = EXPLANATION + ADDED_IN_BUILD
+ADDED_IN_ROUND_9 = " Round 9: PRUNE-FORM positional-drop - candidates dropped by their position in the array (starts[1:]) under a test of the NUMBER of candidates is a violation (after saving-based pruning the candidate starts are not consecutive); a positional drop under a test of the oldest candidate's value is not read (UNDECIDED)."
+EXPLANATION = EXPLANATION + ADDED_IN_BUILD + ADDED_IN_ROUND_9
 
 ASSUMPTIONS = [
     "Python's ast module and evaluation-order/argument-binding semantics as implemented in skverif/symex.py",
